@@ -82,6 +82,7 @@ func checkC20(c *Ctx) (string, error) {
 	c.Rule("R20.1", "every fs-creating call whose path depends on an archive entry name is dominated by a destination-prefix guard whose failing side returns an error", 4)
 	c.Rule("R20.2", "external tar is run with -C <dest> and without -P/--absolute-names", 1)
 	c.Rule("R20.3", "download+extract protocol: stat, lock, second stat under the lock, extract into a temporary directory, publish by rename; lock released on every exit", 9)
+	c.Rule("R20.5", "the lock file is taken with a blocking exclusive flock (exclusive between goroutines and processes)", 2)
 	c.Rule("R20.4", "sibling extractors agree: guard present, parent directory created before a file", 2)
 
 	us := unitsOf(p)
@@ -430,6 +431,65 @@ func checkC20(c *Ctx) (string, error) {
 			}
 		}
 	}
+	// ---------------- R20.5 the lock primitive excludes concurrent requests inside one process too
+	if fd := findFunc(p, "acquireLock"); fd == nil {
+		c.Undecided("R20.5", "acquireLock", 0, "function not found")
+	} else {
+		g := buildCFG(p, fd)
+		isFlockEx := func(n ast.Node) bool {
+			return nodeHas(n, func(x ast.Node) bool {
+				call, ok := x.(*ast.CallExpr)
+				if !ok || !isCallTo(info, call, "syscall.Flock", "golang.org/x/sys/unix.Flock") || len(call.Args) != 2 {
+					return false
+				}
+				v, ok := constInt(info, call.Args[1])
+				return ok && v&2 != 0 && v&4 == 0 // LOCK_EX set, LOCK_NB clear
+			})
+		}
+		nret := 0
+		okAll := true
+		for _, b := range g.G.Blocks {
+			if !b.Live {
+				continue
+			}
+			for _, n := range b.Nodes {
+				ret, ok := n.(*ast.ReturnStmt)
+				if !ok || returnsError(info, ret) {
+					continue
+				}
+				nret++
+				if dom, found := g.dominatedBy(ret, isFlockEx, nil); !found || !dom {
+					okAll = false
+				}
+			}
+		}
+		// the error edge of Flock must not fall through to the success return
+		c.Check(okAll && nret > 0, "R20.5", "acquireLock success implies flock(LOCK_EX)", fd.Pos(),
+			"every success return is dominated by a blocking syscall.Flock(fd, LOCK_EX) on a descriptor opened by this call (per-open-file lock: excludes goroutines of one process as well as other processes)",
+			"acquireLock can succeed without a blocking exclusive flock: POSIX fcntl record locks and O_CREATE-only schemes do not exclude concurrent requests from the same process")
+		// flock failure must return an error
+		for _, b := range g.G.Blocks {
+			if !b.Live || len(b.Nodes) == 0 {
+				continue
+			}
+			ce := condOf(b)
+			if ce == nil || !isFlockEx(b.Nodes[len(b.Nodes)-1]) && !(len(b.Nodes) >= 2 && isFlockEx(b.Nodes[len(b.Nodes)-2])) {
+				continue
+			}
+			if x, y, op, ok := binCmp(ce); ok && isNilIdent(info, y) && exprStr(x) == "err" {
+				failK := 0
+				if op == token.EQL {
+					failK = 1
+				}
+				_, esc := g.reach(cfgPos{b.Succs[failK], 0}, func(n ast.Node) bool {
+					r, ok := n.(*ast.ReturnStmt)
+					return ok && returnsError(info, r)
+				}, nil, true, nil)
+				c.Check(!esc, "R20.5", "acquireLock flock failure returns error", ce.Pos(), "failed flock returns an error", "a failed flock is treated as success")
+			}
+		}
+	}
+
 	// downloadAndExtractArchive: extractors receive the temp dir; destDir only as Rename target after extraction
 	if fd := findFunc(p, "downloadAndExtractArchive"); fd == nil {
 		c.Undecided("R20.3", "downloadAndExtractArchive", 0, "function not found")
@@ -581,6 +641,8 @@ func destPrefixOK(info *types.Info, e ast.Expr) string {
 }
 
 func init() {
+	addMutant(Mutant{Prop: "C20", Name: "lock-shared", File: "internal/crosscompile/fetch.go",
+		Old: "syscall.Flock(int(lockFile.Fd()), syscall.LOCK_EX)", New: "syscall.Flock(int(lockFile.Fd()), syscall.LOCK_SH)", Expect: "R20.5"})
 	addMutant(Mutant{Prop: "C20", Name: "zip-guard-removed", File: "internal/crosscompile/fetch.go",
 		Old: "\t\tif !strings.HasPrefix(path, filepath.Clean(dest)+string(os.PathSeparator)) {\n\t\t\treturn fmt.Errorf(\"%s: illegal file path\", path)\n\t\t}\n", New: "", Expect: "R20.1 extractZip"})
 	addMutant(Mutant{Prop: "C20", Name: "tar-guard-no-separator", File: "internal/crosscompile/fetch.go",
